@@ -1,7 +1,13 @@
+#[cfg(not(crux_verif))]
+use std::sync::Mutex;
 use std::{
-    sync::{Arc, Mutex},
+    sync::Arc,
     task::{Context, Wake},
 };
+
+// same mutex, except that every acquisition is a schedule point for a simulated thread
+#[cfg(crux_verif)]
+use crate::verif::Mutex;
 
 use crossbeam_channel::{Receiver, Sender};
 use futures::{future, Future, FutureExt};
